@@ -90,7 +90,8 @@ def run_case(case):
                     if p.y != p.y:
                         out.append(('tree:flagged-particle-still-in-tree', '%s: particle %d is flagged for removal but sits in a leaf right after the tree update' % (desc, c.pt)))
                         continue
-                    if abs(p.x - c.x) > c.w / 2 or abs(p.y - c.y) > c.w / 2 or abs(p.z - c.z) > c.w / 2:
+                    # cells narrower than the floating point spacing of their own centre have no meaningful boundary: allow 4 ulp of the centre
+                    if abs(p.x - c.x) > c.w / 2 + 8 * EPS * abs(c.x) or abs(p.y - c.y) > c.w / 2 + 8 * EPS * abs(c.y) or abs(p.z - c.z) > c.w / 2 + 8 * EPS * abs(c.z):
                         out.append(('tree:particle-outside-its-leaf', '%s: particle %d at %r, leaf centre %r width %r (depth %d)' % (desc, c.pt, (p.x, p.y, p.z), (c.x, c.y, c.z), c.w, depth)))
                     if (p.c or 0) != addr:
                         out.append(('tree:particle-back-pointer', '%s: particle %d .c=%#x, leaf at %#x' % (desc, c.pt, p.c or 0, addr)))
@@ -184,6 +185,16 @@ def run_case(case):
                         vx=r.uniform(-1, 1) * v, vy=r.uniform(-1, 1) * v, vz=r.uniform(-1, 1) * v * r.choice([0, 1]), r=rs * r.choice([0.0, 0.01, 0.05]), hash=ctypes.c_uint32(h))
         for _i in range(N0):
             sim.add(**newp())
+        if (use_tree_grav or use_tree_col) and r.random() < 0.3 and sim.N > 0:
+            # a neighbour a few ulp away from an existing particle: no cell can separate them; the tree must say so, not recurse forever
+            q = sim.particles[r.randrange(sim.N)]
+            kw = newp()
+            kw.update(x=math.nextafter(q.x, r.choice([-1e300, 1e300])), y=q.y if r.random() < 0.7 else math.nextafter(q.y, 1e300), z=q.z)
+            counters['ulp_neighbours_added'] = counters.get('ulp_neighbours_added', 0) + 1
+            try:
+                sim.add(**kw)
+            except RuntimeError:
+                counters['ulp_neighbours_refused'] = counters.get('ulp_neighbours_refused', 0) + 1
         log = []
 
         def cb(sp, c):
